@@ -250,7 +250,8 @@ class Analyzer(object):
         self.session_classes = session_classes
         self.findings = []      # (rule, instance, detail, site)
         self.stats = {"functions_analysed": 0, "stores_self_session": 0, "stores_self_init": 0, "stores_fresh": 0,
-                      "stores_toplevel": 0, "mutator_calls_judged": 0, "ext_refs": 0, "package_method_calls_named_like_mutators": 0}
+                      "stores_toplevel": 0, "mutator_calls_judged": 0, "ext_refs": 0, "package_method_calls_named_like_mutators": 0,
+                      "calls_of_functions_with_urandom_default": 0}
         self.pkg_methods = set()
         for c in world.classes():
             for st in c.node.body:
@@ -551,6 +552,62 @@ class Analyzer(object):
             p = getattr(p, "_parent", None)
         return None
 
+    def entropy_defaults(self):
+        """W5b: a package function whose parameter defaults to os.urandom must be given that
+        argument at every call inside the package: an omitted argument silently replaces the
+        session's entropy function by ambient randomness."""
+        targets = {}      # function name -> (param index, param name, qual)
+        for (mod, qual, node) in self.world.functions():
+            a = node.args
+            names = [x.arg for x in a.args]
+            for nm, d in zip(names[len(names) - len(a.defaults):], a.defaults):
+                dd = dotted(d)
+                if dd and len(dd) == 2 and dd[1] == "urandom":
+                    v = self.world.static_lookup(mod, dd[0])
+                    if isinstance(v, ExtV) and v.name == "os":
+                        is_method = isinstance(getattr(node, "_parent", None), ast.ClassDef)
+                        idx = names.index(nm) - (1 if is_method else 0)
+                        targets.setdefault(node.name, []).append((idx, nm, mod.name + "." + qual, is_method))
+        n_sites = 0
+        for (mod, qual, node) in self.world.functions():
+            fi = None
+            for c in ast.walk(node):
+                if not isinstance(c, ast.Call):
+                    continue
+                fname = c.func.id if isinstance(c.func, ast.Name) else c.func.attr if isinstance(c.func, ast.Attribute) else None
+                cands = targets.get(fname)
+                if fname == "__init__" and isinstance(c.func, ast.Attribute):
+                    cands = targets.get("__init__")
+                    # Base.__init__(self, ...): explicit self shifts positions by one
+                    shift = 1
+                else:
+                    shift = 0
+                if not cands:
+                    # constructor call ClassName(...) / klass(...)
+                    if isinstance(c.func, ast.Name):
+                        v = self.world.static_lookup(mod, c.func.id)
+                        if isinstance(v, ClassV):
+                            r = v.lookup("__init__")
+                            if r and r[0] == "func":
+                                cands = [t for t in targets.get("__init__", []) if t[2].endswith(r[2].name + ".__init__")]
+                    if not cands:
+                        continue
+                if isinstance(c.func, ast.Name) and fname in targets:
+                    v = self.world.static_lookup(mod, fname)
+                    if not isinstance(v, FuncV):
+                        continue
+                if any(k.arg is None for k in c.keywords) or any(isinstance(a_, ast.Starred) for a_ in c.args):
+                    continue
+                n_sites += 1
+                for (idx, nm, tq, is_method) in cands:
+                    given = len(c.args) - shift > idx or any(k.arg == nm for k in c.keywords)
+                    if not given:
+                        self.findings.append(("W5", "%s:%s:%s" % (mod.name, qual, stmt_text(c)),
+                                              "call of %s without its '%s' argument: the default os.urandom replaces the session's entropy function" % (tq, nm),
+                                              (mod.relpath, c.lineno, qual)))
+                        break
+        self.stats["calls_of_functions_with_urandom_default"] = n_sites
+
     def toplevel(self):
         """W6: module top-level stores are import-time initialisation (counted, exempt)."""
         for m in self.world.mods.values():
@@ -578,6 +635,7 @@ def run_analyzer(world, session_classes):
     for (mod, qual, node) in world.functions():
         an.analyse_function(FuncInfo(world, mod, qual, node, session_classes))
     an.ext_refs()
+    an.entropy_defaults()
     an.toplevel()
     return an
 
